@@ -224,10 +224,7 @@ Definition copt_ok (cs : list ctxspec) (args : list rarg) (o : copt) : bool :=
              takes_value (r_spec r) && negb (r_raw r)
              && negb (akind_eqb (a_kind (r_spec r)) KList)
              && negb (starts_with "-" (co_val o))
-             && match a_kind (r_spec r) with
-                | KInt => match parse_int (co_val o) with Some _ => true | None => false end
-                | _ => true
-                end
+             && castable (r_spec r) (co_val o)
              && (negb (a_optional (r_spec r)) || negb (is_ctx_name cs (co_val o)))
              && match f with
                 | CGlued => Nat.eqb (String.length (co_tok o)) 2
@@ -303,7 +300,7 @@ Lemma copt_ok_parts cs args o :
     | f =>
         takes_value (r_spec r) = true /\ r_raw r = false /\ a_kind (r_spec r) <> KList /\
         starts_with "-" (co_val o) = false /\
-        (a_kind (r_spec r) = KInt -> intlike (co_val o) = true) /\
+        castable (r_spec r) (co_val o) = true /\
         (a_optional (r_spec r) = true -> is_ctx_name cs (co_val o) = false) /\
         match f with
         | CGlued => String.length (co_tok o) = 2 /\ co_val o <> "" /\
@@ -321,18 +318,15 @@ Proof.
   assert (V : co_form o <> CBare ->
               takes_value (r_spec r) && negb (r_raw r) && negb (akind_eqb (a_kind (r_spec r)) KList)
               && negb (starts_with "-" (co_val o))
-              && match a_kind (r_spec r) with
-                 | KInt => match parse_int (co_val o) with Some _ => true | None => false end
-                 | _ => true end
+              && castable (r_spec r) (co_val o)
               && (negb (a_optional (r_spec r)) || negb (is_ctx_name cs (co_val o))) = true ->
               takes_value (r_spec r) = true /\ r_raw r = false /\ a_kind (r_spec r) <> KList /\
               starts_with "-" (co_val o) = false /\
-              (a_kind (r_spec r) = KInt -> intlike (co_val o) = true) /\
+              castable (r_spec r) (co_val o) = true /\
               (a_optional (r_spec r) = true -> is_ctx_name cs (co_val o) = false)).
   { intros _ X. rewrite !andb_true_iff, !negb_true_iff in X.
     destruct X as [[[[[X1 X2] X3] X4] X5] X6]. repeat split; auto.
     - intros K. rewrite K in X3. discriminate.
-    - intros K. rewrite K in X5. unfold intlike. exact X5.
     - intros O. rewrite O in X6. simpl in X6. rewrite negb_true_iff in X6. exact X6. }
   destruct (co_form o) eqn:Fo.
   - rewrite andb_true_iff, negb_true_iff in H. destruct H as [K I].
@@ -350,7 +344,7 @@ Qed.
 
 Lemma value_set r v :
   takes_value (r_spec r) = true -> a_kind (r_spec r) <> KList ->
-  (a_kind (r_spec r) = KInt -> intlike v = true) ->
+  castable (r_spec r) v = true ->
   exists r', set_value r (IStr v) true = Ok r' /\ r_spec r' = r_spec r /\ r_raw r' = true /\
              aval_is_none (arg_value r') = false.
 Proof.
